@@ -241,6 +241,7 @@ theorem deliverCall_reg (w : World) (id : Nat) (fail : Bool) :
         | false =>
           simp only [h1, h2, List.contains_iff_mem, if_false, Bool.false_eq_true, or_self]
           cases c.meth <;> simp [run_nil]
+          split <;> rfl
 
 theorem step_reg (w : World) (e : Ev) : (w.step e).1.reg = run w.reg (w.regEvents e) := by
   cases e with
@@ -262,7 +263,7 @@ theorem step_reg (w : World) (e : Ev) : (w.step e).1.reg = run w.reg (w.regEvent
     | nil => simp [run]
     | cons x xs => simp only []; rw [deliverCall_reg]; rfl
   | kill a => simp [World.step, World.regEvents, run]
-  | revive a => simp [World.step, World.regEvents, run]
+  | revive a => simp only [World.step, World.regEvents]; split <;> simp [run]
   | shutdown i =>
     simp only [World.step, World.regEvents]
     cases w.clients[i]? <;> simp [run, REv.apply]
